@@ -455,8 +455,23 @@ def materialize(t, d):
     for i, f in t["facts"]:
         if f[2]:
             ign += [pstr(p) for p, j in t["files"] if j == i]
+    # spelling of the entries: one per file, or -- for a directory all of whose files are ignored -- the directory itself, with and
+    # without the trailing slash of a directory-only pattern (the spelling rotates with the tree)
+    allf = [pstr(p) for p, _ in t["files"]]
+    mode = (len(allf) + len(ign) + sum(len(x) for x in allf)) % 3
+    entries = []
+    if mode and ign:
+        dirs_ = sorted(set(os.path.dirname(x) for x in ign if os.path.dirname(x)), key=len)
+        covered = set()
+        for dd in dirs_:
+            under = [x for x in allf if x.startswith(dd + "/")]
+            if under and all(x in ign for x in under) and not any(dd.startswith(c + "/") for c in covered):
+                covered.add(dd)
+                entries.append('"/%s%s"' % (dd, "/" if mode == 1 else ""))
+        ign = [x for x in ign if not any(x.startswith(c + "/") for c in covered)]
+    entries += ['"/%s"' % x for x in ign]
     with open(os.path.join(d, "rustfmt.toml"), "w") as f:
-        f.write("ignore = [%s]\n" % ", ".join('"/%s"' % x for x in ign))
+        f.write("ignore = [%s]\n" % ", ".join(entries))
 
 
 def tok_path(p):
